@@ -346,6 +346,50 @@ def check_case(spec, form, sel, placement, stats, enum=True, kwnames=KW, maxpos=
         stats.sample(cls, {'decoration': desc, 'advertised': '(%s)' % universe.spec_text(exp_t)})
 
 
+class _Anything(object):
+    """A default value that claims to equal everything (unittest.mock.ANY does)."""
+    def __eq__(self, other):
+        return True
+
+    def __ne__(self, other):
+        return False
+    __hash__ = object.__hash__
+
+    def __repr__(self):
+        return '<ANYTHING>'
+
+
+def check_permissive_defaults(stats):
+    """A default is a default, whatever its == says: the decorated function is called without it and delivers it."""
+    import sigtools
+    from sigtools import modifiers
+    ANY = _Anything()
+    ns = {'ANY': ANY}
+    exec('def f(a, b=ANY, c=ANY):\n    return {"a": a, "b": b, "c": c}\n', ns)
+    for label, make in (("kwoargs('b')", lambda f: modifiers.kwoargs('b')(f)), ("kwoargs(start='b')", lambda f: modifiers.kwoargs(start='b')(f)),
+                        ('autokwoargs', lambda f: modifiers.autokwoargs(f)), ("posoargs('a')", lambda f: modifiers.posoargs('a')(f))):
+        stats.case()
+        stats.cls('permissive-default/%s' % label)
+        g = make(twin(ns['f']))
+        case = {'form': 'permissive-default', 'decorator': label}
+        sig = sigtools.signature(g)
+        if any(p.default is p.empty for p in sig.parameters.values() if p.name != 'a'):
+            stats.fail('C12/permissive-default/advertised', case, '%s on def f(a, b=ANY, c=ANY) advertises %s: b and c have defaults' % (label, sig))
+            continue
+        if label == 'autokwoargs' and [p.name for p in sig.parameters.values() if p.kind == p.KEYWORD_ONLY] != ['b', 'c']:
+            stats.fail('C12/permissive-default/advertised', case, 'autokwoargs on def f(a, b=ANY, c=ANY) advertises %s: b and c have defaults and become keyword-only' % sig)
+            continue
+        try:
+            got = g(1)
+        except TypeError as e:
+            stats.fail('C12/permissive-default/call', case, '%s on def f(a, b=ANY, c=ANY) advertises %s but f(1) raises TypeError: %s' % (label, sig, e))
+            continue
+        if got['b'] is not ANY or got['c'] is not ANY or got['a'] != 1:
+            stats.fail('C12/permissive-default/call', case, '%s on def f(a, b=ANY, c=ANY): f(1) delivers %r' % (label, got))
+            continue
+        stats.nontriv(('permissive-default', label))
+
+
 def selections(spec):
     cand = [p.name for p in spec] + ['q']
     subs = [c for r in range(0, 4) for c in itertools.combinations(cand, r)]
@@ -434,8 +478,15 @@ def shard_hyp(arg):
     return st
 
 
+def shard_permissive(arg):
+    st = Stats()
+    check_permissive_defaults(st)
+    return st
+
+
 def run(ctx):
     total = Stats()
+    total.merge(ctx.pmap(shard_permissive, [0]))
     U3 = universe.enum_specs(('a', 'b', 'c'), 3, ('args',), ('kwargs',))
     specs = ctx.stride(U3, ctx.pick(0.04, 1.0))
     total.merge(ctx.pmap(shard, [(specs[i::128], ('function', 'bound', 'class')) for i in range(128) if specs[i::128]]))
@@ -450,6 +501,9 @@ def run(ctx):
 
 
 def replay(case, stats):
+    if case.get('form') == 'permissive-default':
+        check_permissive_defaults(stats)
+        return
     spec = tuple(Par(*p) for p in case['spec'])
     spec = tuple(p._replace(default='1') if p.default is not None else p for p in spec)
     names = tuple(p.name for p in spec if p.kind in (PO, POK, KWO))[:5] + ('q', 'zz')
